@@ -2,6 +2,8 @@ import Ldlm.Proofs.Table
 import Ldlm.Proofs.TableFifo
 import Ldlm.Proofs.CoreLock
 import Ldlm.Proofs.CoreMain
+import Ldlm.Proofs.CoreWait
+import Ldlm.Proofs.CorePU
 /-!
 C03 — Blocked Lock calls: no lost wake-up, FIFO service, prompt timeout/cancel.
 
@@ -18,8 +20,15 @@ Interleaved (M1, every schedule, any number of threads):
                             the queue, so no later release can serve it, and it does not delay the
                             others (`cancel_keeps_invariant`: the no-lost-wake-up invariant survives).
 Timed (M2, sequential, virtual time):
-* `wait_timeout_not_early` — a blocked call with wait timeout w issued at time t is still pending
-                            after any advance to an instant before t + w·10⁹ unless it was granted.
+* `wait_deadline`         — a blocked call with wait timeout w issued at time t gets the deadline t + w·10⁹.
+* `wait_not_early`        — every `LockWaitTimeout` answer of an advance belongs to a call blocked before it
+                            whose deadline lies at or before the instant advanced to: never earlier than
+                            the timeout (`wait_not_early_pending`: a call whose deadline lies beyond that
+                            instant gets no such answer, whatever else fires in between).
+                            `wait_not_early_reachable`: the same in every reachable state, where the
+                            request numbers of the blocked calls are distinct (`Core.run_pu`).
+* `wait_prompt`           — after an advance no blocked call is left whose deadline has passed.
+* `wait_only_shrinks`     — an advance adds no blocked call.
 * `wait_timeout_zero_is_none` — wait timeout 0 / absent: no deadline.
 * `waiter_implies_full_seq` — the sequential counterpart of no-lost-wake-up for every reachable
                             state (restarts, expiries, session ends included).
@@ -89,8 +98,67 @@ theorem wait_deadline (s : Core.St M) (sid : Sid) (n : Core.Str) (sz lt : Option
     | (exact ⟨_, rfl, by simp_all⟩)
     | simp_all
 
+/-- **never earlier than the timeout**: a `LockWaitTimeout` answer produced by an advance of `dt` belongs to a
+call that was blocked before, whose deadline is at or before `now + dt` -/
+theorem wait_not_early (s : Core.St M) (dt : Nat) (q : Nat) (k : Core.Str)
+    (h : Event.done q false k (some .waitTimeout) ∈ (Core.step o c s (.advance dt)).2.events) :
+    ∃ p ∈ s.pending, p.req = q ∧ p.key = k ∧ ∃ d, p.deadline = some d ∧ d ≤ s.now + dt := by
+  simp only [Core.step] at h
+  exact advanceTo_wait_not_early _ _ s q k h
+
+/-- the contrapositive a client relies on: if the request numbers of the blocked calls are distinct (they
+are: `nreq` counts up), a blocked call whose deadline lies beyond `now + dt`, or that has none, is not
+answered `LockWaitTimeout` by the advance -/
+theorem wait_not_early_pending (s : Core.St M) (dt : Nat) (p : Pending) (hp : p ∈ s.pending)
+    (hu : ∀ p' ∈ s.pending, p'.req = p.req → p' = p)
+    (hd : ∀ d, p.deadline = some d → s.now + dt < d) (k : Core.Str) :
+    Event.done p.req false k (some .waitTimeout) ∉ (Core.step o c s (.advance dt)).2.events := by
+  intro h
+  obtain ⟨p', hp', hreq, _, d, hdl, hle⟩ := wait_not_early s dt p.req k h
+  have := hu p' hp' hreq
+  subst this
+  have := hd d hdl
+  omega
+
+/-- … and in every reachable state (any history, restarts included) the request numbers ARE distinct: a call
+blocked after the history `ops` whose deadline lies beyond `now + dt` (or that has none) is not answered
+`LockWaitTimeout` by the advance -/
+theorem wait_not_early_reachable (ops : List Op) (dt : Nat) (p : Pending) (hp : p ∈ (Core.run o c ops).pending)
+    (hd : ∀ d, p.deadline = some d → (Core.run o c ops).now + dt < d) (k : Core.Str) :
+    Event.done p.req false k (some .waitTimeout) ∉ (Core.step o c (Core.run o c ops) (.advance dt)).2.events :=
+  wait_not_early_pending _ dt p hp (fun p' hp' e => (run_pu (o := o) (c := c) ops).unique p p' hp hp' e) hd k
+
+/-- **prompt**: unless the advance reports a tie or ran out of fuel, no blocked call with a deadline at or
+before `now + dt` is still waiting afterwards -/
+theorem wait_prompt (s : Core.St M) (dt : Nat) (hnt : (Core.step o c s (.advance dt)).2.tie = false) :
+    ∀ p ∈ (Core.step o c s (.advance dt)).1.pending, ∀ d, p.deadline = some d → s.now + dt < d := by
+  simp only [Core.step] at hnt ⊢
+  apply advanceTo_wait_prompt
+  cases hx : (advanceTo o c (s.now + dt) (4 * (s.timers.length + s.pending.length) + 100000) s).2.2.2 with
+  | false => rfl
+  | true => simp [hx] at hnt
+
+theorem wait_only_shrinks (s : Core.St M) (dt : Nat) :
+    ∀ p ∈ (Core.step o c s (.advance dt)).1.pending, p ∈ s.pending := by
+  simp only [Core.step]
+  exact advanceTo_pending_sub _ _ s
+
 theorem wait_timeout_zero_is_none (s : Core.St M) (sid : Option Sid) (n : Core.Str) (sz lt : Option Int) :
     Core.step o c s (.lock sid n sz lt none) = Core.step o c s (.lock sid n sz lt (some 0)) := by
   simp [Core.step, srvLock, negOpt]
+
+/-! non-vacuity (timed): s1 holds "a"; s2's Lock with a 3 s wait timeout blocks; an advance of 2.999… s answers
+nothing and leaves it blocked; an advance of 3 s answers LockWaitTimeout and leaves nobody blocked -/
+def cfgW : Cfg := { gcInterval := 0, gcMinIdle := 0, dlt := 600 * sec, noClear := false, hasFile := true,
+                    genKey := fun n => 75 :: natDigits n }
+def stW : St (List (Core.Str × LockRec)) :=
+  run flatOps cfgW [.connect [115, 49], .connect [115, 50], .tryLock (some [115, 49]) [97] none none,
+                    .lock (some [115, 50]) [97] none none (some 3)]
+example : stW.pending.map (fun p => (p.req, p.deadline)) = [(1, some 3000000000)] := by decide
+example : (step flatOps cfgW stW (.advance 2999999999)).2.events = [] ∧
+          (step flatOps cfgW stW (.advance 2999999999)).1.pending.length = 1 := by decide
+example : (step flatOps cfgW stW (.advance 3000000000)).2.events = [.done 1 false [75, 49] (some .waitTimeout)] ∧
+          (step flatOps cfgW stW (.advance 3000000000)).1.pending = [] ∧
+          (step flatOps cfgW stW (.advance 3000000000)).2.tie = false := by decide
 
 end Ldlm.Props.C03
